@@ -115,6 +115,12 @@ func vGenEntries(tag string, maxEntries int, allowNested bool, recursive bool, d
 		if kind == vkDeflated {
 			e.content = make([]byte, size) // zeros: compresses to a few bytes
 			e.deflate = true
+			if i == 0 && allowNested && verif.Bool(tag+"hugeLie") {
+				// a zip64 header declaring 2^63 bytes: negative once taken as an int64, i.e. "fewer than stored"
+				e.declaredHuge = true
+				st.lying = true
+				st.lyingShort = true
+			}
 		}
 		if i == 0 && size > 0 && kind == vkFile && allowNested {
 			switch verif.Choice(tag+"lie", 3) {
